@@ -72,6 +72,7 @@ def run(ctx):
     ctx.rule("type-witness", "compile_fail doc-test witnesses with compiling twins (cargo +nightly test --doc)")
     from .. import witness
     witness.check(ctx, {"SendSync", "SharedUse"}, floor=2)
+    ctx.rule("limit-exact", "stateless read/write length limits are exactly 65535 / 65535-16 (what can be written can be read back)")
     for cfg in ctx.cfgs:
         F = ctx.facts[cfg]
         E = ctx.eff(cfg)
@@ -111,6 +112,10 @@ def run(ctx):
         twins(ctx, cfg)
         n = roles.check_transport_roles(ctx, cfg, ops_filter={"read_message", "write_message"}, kinds=("stateless",))
         ctx.floor("role-index", n, 4, cfg)
+        # every message the stateless writer can produce (payload <= 65519) must be readable by the stateless reader:
+        # the two length limits are exactly those of the specification
+        from .C14 import limit_exact
+        limit_exact(ctx, cfg, only="stateless_transportstate::")
 
 
 def count_types(F, ti):
